@@ -29,7 +29,7 @@ out.append("Every change below was written by a fresh sub-agent that was given *
            "`tools/confirm_seed.py` in another scratch worktree (demo passes on the unchanged code, fails with the change, the repository's "
            "suite still passes with the change) and kept as `seeded/<id>/` (patch.diff, demo/, meta.json). `tools/seeded.py run <id>` applies "
            "the patch to a scratch worktree and runs the property's registered quick command against it in isolation "
-           "(`VERIF_REPO`/`VERIF_ALT`); none of these changes ever touched /repo. Two rounds were run per property; in round 2 the agents "
+           "(`VERIF_REPO`/`VERIF_ALT`); none of these changes ever touched /repo. Six rounds were run (two changes per property and round from round 3 on); from round 2 on the agents "
            "were additionally told which changes had already been tried.\n")
 out.append(f"Current state: **{det} of {n}** seeded changes are detected by the check of the property they break (column *own check*; quick tier unless a thorough result is shown). "
            "The *history* column records every change that was missed at first and what was strengthened; *other checks* lists further "
